@@ -291,3 +291,30 @@ pub fn lookalike_cfg(x: &str, y: &str, flip: bool) -> (LCfg, Vec<String>) {
     let targets = vec![x.to_string(), y.to_string(), format!("{}::c", x), format!("{}::c", y), format!("p::{}", x), format!("p::{}", y), format!("p::{}::d", y), "p".to_string()];
     (cfg, targets)
 }
+
+
+/// A family of `n` sibling loggers below `parent` ("" = below the root), every one with its own level, appender and
+/// additivity, plus a grandchild below some of them; targets hit every sibling. (A node's children may be kept in a
+/// small container that changes shape when it grows.)
+pub fn sibling_family(parent: &str, n: usize) -> (LCfg, Vec<String>) {
+    let pre = if parent.is_empty() { String::new() } else { format!("{}::", parent) };
+    let mut loggers = vec![];
+    if !parent.is_empty() {
+        loggers.push(LLogger { name: parent.to_string(), level: 2, additive: true, appenders: vec!["A3".to_string()] });
+    }
+    let mut targets = vec![];
+    for i in 0..n {
+        let name = format!("{}s{}", pre, i);
+        loggers.push(LLogger { name: name.clone(), level: (1 + (i * 7) % 5) as u8, additive: i % 3 != 0, appenders: vec![APPENDERS[i % 3].to_string()] });
+        if i % 4 == 1 {
+            loggers.push(LLogger { name: format!("{}::k", name), level: 5, additive: true, appenders: vec!["A4".to_string()] });
+        }
+        targets.push(name.clone());
+        if i % 2 == 0 {
+            targets.push(format!("{}::k", name));
+        }
+    }
+    targets.push(format!("{}s", pre));
+    targets.push(format!("{}s{}", pre, n));
+    (LCfg { appenders: APPENDERS.iter().map(|s| s.to_string()).collect(), root_level: 1, root_appenders: vec!["A4".to_string()], loggers }, targets)
+}
